@@ -25,12 +25,12 @@ def prop(pid, stages, **kw):
 
 WIRE_NOTE = "McWire enumerates every value of the star domains of spec/Domain.tla (all 15 packet kinds) and every emitted behaviour is replayed; random drivers add sampled values"
 
-prop("C01", lambda t, s: [("mc", "Mc", n(t, "McFaults", "McFaults2")), ("drive", "fuzz", n(t, 1500, 40000)), ("drive", "bigdec", n(t, 0, 1))],
-     exhaustive_note="McFaults enumerates every first-order fault of spec/Faults.tla on the tiny domain; every faulted buffer goes to all 16 packet decoders, 7 sub-decoders and the datagram decoder")
+prop("C01", lambda t, s: [("mc", "Mc", n(t, "McFaults", "McFaults2")), ("mc", "Mc", "McFaultsDev"), ("drive", "fuzz", n(t, 1500, 40000)), ("drive", "bigdec", n(t, 0, 1))],
+     exhaustive_note="McFaults enumerates every first-order fault of spec/Faults.tla on the tiny domain; every faulted buffer goes to all 16 packet decoders, 7 sub-decoders and the datagram decoder; McFaultsDev does the same from the encodings of the deviating model (SLI with PT 205, CCFB num_reports n-1), which are the ones the library's SLI and CCFB decoders accept")
 prop("C02", lambda t, s: [("mc", "Mc", "McWire"), ("drive", "rt", n(t, 1500, 60000)), ("drive", "rtlist", n(t, 300, 10000)), ("drive", "bigframes", n(t, 0, 1))], exhaustive_note=WIRE_NOTE)
 prop("C03", lambda t, s: [("mc", "Mc", "McWire"), ("drive", "rt", n(t, 1500, 60000)), ("drive", "bigframes", n(t, 0, 1))], exhaustive_note=WIRE_NOTE)
 prop("C05", lambda t, s: [("mc", "Mc", "McWire"), ("drive", "rt", n(t, 1500, 60000)), ("drive", "rtlist", n(t, 300, 10000)), ("drive", "bigframes", n(t, 0, 1))], exhaustive_note=WIRE_NOTE)
-prop("C09", lambda t, s: [("mc", "Mc", n(t, "McFaults", "McFaults2")), ("drive", "fuzzdgram", n(t, 8000, 300000))],
+prop("C09", lambda t, s: [("mc", "Mc", n(t, "McFaults", "McFaults2")), ("mc", "Mc", "McFaultsDev"), ("drive", "fuzzdgram", n(t, 8000, 300000))],
      exhaustive_note="McFaults enumerates every first-order fault on the tiny domain and follows every accepted datagram through Marshal and a second decode")
 prop("C10", lambda t, s: [("mc", "Mc", "McWire"), ("mc", "Mc", n(t, "McCompound", "McCompound4")), ("drive", "rt", n(t, 1500, 60000)), ("drive", "cprand", n(t, 300, 20000))],
      exhaustive_note=WIRE_NOTE + "; McCompound gives every member sequence of up to 3 (thorough: 4) over 14 representative kinds to CompoundPacket.DestinationSSRC")
@@ -43,7 +43,7 @@ DEFAULT_NOTE = ("Trusted: harness/abs field copies, the RFC reading in spec/*.tl
                 "through executions actually performed; inputs outside the enumerated domains and drivers are not covered.")
 NOT_YET = {}
 
-prop("C04", lambda t, s: [("mc", "Mc", "McVariants"), ("mc", "Mc", n(t, "McFaults", "McFaults2")), ("drive", "fuzz", n(t, 1200, 40000))],
+prop("C04", lambda t, s: [("mc", "Mc", "McVariants"), ("mc", "Mc", n(t, "McFaults", "McFaults2")), ("mc", "Mc", "McFaultsDev"), ("drive", "fuzz", n(t, 1200, 40000))],
      exhaustive_note="McVariants enumerates every alternative and count-inflated encoding of spec/Variants.tla over VarDom/InflateDom; McFaults every first-order fault on the tiny domain")
 prop("C06", lambda t, s: [("mc", "Mc", n(t, "McDgram", "McDgram3")), ("drive", "frameseq", n(t, 600, 30000)), ("drive", "bigframes", n(t, 0, 1))],
      exhaustive_note="McDgram enumerates every sequence of up to 2 (thorough: 3) pieces over the frame set of spec/Domain.tla (valid frames of every kind, raw frames, malformed frames, incomplete tails)")
@@ -70,7 +70,7 @@ prop("C15", lambda t, s: [("mc", "XrWalk", n(t, "McXr", "McXrThorough")), ("mc",
 prop("C16", lambda t, s: [("mc", "UnitsMc", n(t, "McUnits", "McUnitsThorough")), ("mc", "Mc", "McWireUnits"), ("drive", "units", n(t, 2000, 50000)), ("drive", "sweeps", n(t, 65537, 1))],
      exhaustive_note="McUnits checks and emits rows of 256 consecutive wire words of the 2^16 tables of run-length chunks, status-vector chunks, 2-octet deltas, metric blocks, RLE chunks and header lengths (quick: 37 rows of each; thorough: all 256), the complete 1-octet delta table and the header octet-0 x PT table; the thorough tier adds exhaustive Go sweeps of all 2^24 loss counts, all 2^32 header words, NACK pairs and SLI words (quick: every 65537th)")
 
-prop("C17", lambda t, s: [("mc", "Mc", "McWire"), ("mc", "Mc", n(t, "McFaults", "McFaults2")), ("drive", "strings", n(t, 1500, 60000)), ("drive", "fuzz", n(t, 600, 30000)), ("drive", "cprand", n(t, 200, 10000))],
+prop("C17", lambda t, s: [("mc", "Mc", "McWire"), ("mc", "Mc", n(t, "McFaults", "McFaults2")), ("mc", "Mc", "McFaultsDev"), ("drive", "strings", n(t, 1500, 60000)), ("drive", "fuzz", n(t, 600, 30000)), ("drive", "cprand", n(t, 200, 10000))],
      exhaustive_note="String(), %v and %+v are applied to every star-domain value, to every packet any decoder accepted from the first-order faulted buffers, to all 256 values of PacketType, SDESType, BlockTypeType and TTLorHopLimitType, to all 2^16 XR chunks, and to REMB bitrates at every power of two and ten")
 
 prop("C18", lambda t, s: [("mc", "ConcurrencyMc", "McConc"), ("mc_broken", "ConcurrencyMc", "McConcBroken"), ("mc", "Mc", n(t, "McHist", "McHist4")),
@@ -79,7 +79,7 @@ prop("C18", lambda t, s: [("mc", "ConcurrencyMc", "McConc"), ("mc_broken", "Conc
      assumptions=["the Go race detector reports only the races that occur in the sampled schedules"])
 
 # vacuity guard: the least number of distinct behaviours each configuration must emit for replay
-MIN_BEHAVIOURS = {"McWire": 900, "McFaults": 3000, "McFaults2": 20000, "McLimits": 80, "McVariants": 250, "McForeign": 800, "McDispatch": 3000,
+MIN_BEHAVIOURS = {"McFaultsDev": 400, "McWire": 900, "McFaults": 3000, "McFaults2": 20000, "McLimits": 80, "McVariants": 250, "McForeign": 800, "McDispatch": 3000,
                   "McDispatchAll": 30000, "McDgram": 600, "McDgram3": 10000, "McCompound": 2000, "McCompound4": 30000, "McNack": 5000,
                   "McNackThorough": 15000, "McTwcc": 7000, "McTwccThorough": 50000, "McRemb": 1100, "McRembThorough": 5000, "McWireRemb": 100,
                   "McXr": 300, "McXrThorough": 4000, "McWireXr": 180, "McUnits": 200, "McUnitsThorough": 1500, "McWireUnits": 250,
